@@ -27,7 +27,7 @@ ASSUMPTIONS = ['graphs are given as dict-of-dict adjacency mappings containing e
 
 def plan(prop, tier):
     if tier == 'quick':
-        return {'runs': 4000, 'cap': 30.0, 'det_runs': 40}
+        return {'runs': 4000, 'cap': 30.0, 'det_runs': 40, 'legs': [{'hashseed': h} for h in (0, 1, 2, 3)]}
     return {'cap': 60.0, 'budget_s': 600, 'legs': [{'hashseed': h} for h in (0, 1, 2, 3)]}
 
 
